@@ -910,6 +910,29 @@ def replay_file(path, pid="C07"):
     use_repo()
     v = json.load(open(path))
     sc = v["scenario"]
+    if "scenario" in sc and "beh" in sc["scenario"]:
+        # expectThat under the Twisted runner (lifecycle.expect_that_async)
+        from . import c14
+
+        obs = c14.observe(sc["scenario"])
+        bad = [c for c in c14.compare(v["expected"], obs) if c in ("success-iff", "one-outcome")]
+        print("replay:", bad or "conforms", obs)
+        if bad:
+            print("VIOLATION property=C07 replay=%s" % path)
+            return 1
+        return 0
+    if "prog" in sc and "script" in sc["prog"]:
+        # expectThat program of the lifecycle model (lifecycle.expect_that_check)
+        from . import lifecycle
+
+        tr = lifecycle.observe(sc["prog"], ("ext", "tt"))
+        verdict = lifecycle.validate(Report("C07", "quick", "model_checking", "replay"), [tr])[1]
+        bad = [c for c in ("c03_sound", "c03_verdict", "c05_details") if not verdict[c]]
+        print("replay verdict:", bad or "conforms")
+        if bad:
+            print("VIOLATION property=C07 replay=%s" % path)
+            return 1
+        return 0
     pool = mc.PathPool("c07r")
     try:
         if sc.get("part") in ("pairs", "tests"):
